@@ -8,9 +8,12 @@ PROP = "C08"
 def plans(tier):
     s = vlib.seed()
     if tier == "quick":
-        return [dict(gens="star,hole,collapse,arbitrary", variants="base,subsets", n=900, W=8, nmax=12, bias=0.6, seed=s)]
+        return [dict(gens="star,hole,collapse,arbitrary", variants="base,subsets", n=900, W=8, nmax=12, bias=0.6, seed=s),
+                # arrowheads with a sliver wing: the ring falls apart on a DEEPER level and survives on a shallower one
+                dict(gens="dart", variants="base,subsets", n=600, W=8, nmax=10, bias=0.3, seed=s + 2)]
     return [dict(gens="star,hole,collapse,arbitrary", variants="base,subsets", n=40000, W=8, nmax=14, bias=0.6, seed=s),
-            dict(gens="collapse,arbitrary", variants="base,subsets", n=20000, W=6, nmax=16, bias=0.8, seed=s + 1)]
+            dict(gens="collapse,arbitrary", variants="base,subsets", n=20000, W=6, nmax=16, bias=0.8, seed=s + 1),
+            dict(gens="dart", variants="base,subsets", n=12000, W=8, nmax=10, bias=0.3, seed=s + 2)]
 
 
 def real_plans(tier):
